@@ -134,6 +134,19 @@ pub fn run(ctx: &mut Ctx) {
     ctx.assume("flate2/bzip2/zstd codecs are trusted; CRC-32 of the model content is computed by an independent table-driven implementation");
     ctx.assume("names and comments never embed ZIP end-record signatures (format-inherent ambiguity, excluded by construction)");
 
+    if let Some(c) = ctx.replay_case("fuzz_raw") {
+        let bytes = crate::util::unhex(c["bytes"].as_str().unwrap_or("")).unwrap_or_default();
+        let mut u = arbitrary::Unstructured::new(&bytes);
+        let v = match decode_program(&mut u) {
+            Some(p) => {
+                let sel = u.arbitrary::<u8>().unwrap_or(0) as usize;
+                Verdict::from_result(check_program(&p, sel).map(|_| ()))
+            }
+            None => Verdict::Pass,
+        };
+        ctx.replay_verdict = Some(v);
+        return;
+    }
     let n = ctx.q(1500, 20000);
     let maxc = ctx.q(1 << 18, 8 << 20);
     ctx.explore::<(Program, u8)>(
@@ -269,4 +282,36 @@ pub fn run(ctx: &mut Ctx) {
             }
         },
     );
+}
+
+/// Decode a legal writer program from fuzzer bytes (hand-written arbitrary layer).
+pub fn decode_program(u: &mut arbitrary::Unstructured) -> Option<Program> {
+    let n = u.int_in_range(0..=8usize).ok()?;
+    let mut ops = Vec::new();
+    for _ in 0..n {
+        let kind = u.int_in_range(0..=9u8).ok()?;
+        let name_len = u.int_in_range(0..=24usize).ok()?;
+        let raw = u.bytes(name_len.min(u.len())).ok()?;
+        let name = String::from_utf8_lossy(raw).into_owned();
+        let (method, level) = match u.int_in_range(0..=6u8).ok()? {
+            0 | 1 => (Method::Stored, None),
+            2 => (Method::Deflated, None),
+            3 => (Method::Deflated, Some(u.int_in_range(0..=9i32).ok()?)),
+            4 => (Method::Bzip2, Some(u.int_in_range(1..=9i32).ok()?)),
+            5 => (Method::Zstd, Some(u.int_in_range(-7..=12i32).ok()?)),
+            _ => (Method::Zstd, None),
+        };
+        let ts = (u.int_in_range(1980..=2107u16).ok()?, u.int_in_range(1..=12u8).ok()?, u.int_in_range(1..=31u8).ok()?, u.int_in_range(0..=23u8).ok()?, u.int_in_range(0..=59u8).ok()?, u.int_in_range(0..=60u8).ok()?);
+        let perm = if u.ratio(1u8, 2u8).ok()? { Some(u.int_in_range(0..=0o777u32).ok()?) } else { None };
+        let opts = Opts { method, level, ts, perm, large: u.ratio(1u8, 6u8).ok()?, password: None };
+        let clen = u.int_in_range(0..=300usize).ok()?;
+        let content = Content::Bytes(u.bytes(clen.min(u.len())).ok()?.to_vec());
+        match kind {
+            0 => ops.push(Op::Dir { name, opts }),
+            1 => ops.push(Op::Symlink { name, target: String::from_utf8_lossy(&content.expand()).chars().take(20).collect(), opts }),
+            2 => ops.push(Op::Comment(gen::sanitize_comment(content.expand()))),
+            _ => ops.push(Op::File { name, opts, chunks: vec![content] }),
+        }
+    }
+    Some(Program { ops })
 }
